@@ -983,6 +983,11 @@ class ClientRequestBase:
                     self.headers[hdrs.CONNECTION] = "close"
             elif v == HttpVersion10:
                 self.headers[hdrs.CONNECTION] = "keep-alive"
+        for value in self.headers.getall(hdrs.CONNECTION, ()):
+            if "close" in (token.strip().lower() for token in value.split(",")):
+                # https://www.rfc-editor.org/rfc/rfc9112#section-9.6-3
+                # No further request may follow one that sends "close".
+                protocol.force_close()
 
         # status + headers
         status_line = f"{self.method} {path} HTTP/{v.major}.{v.minor}"
